@@ -128,6 +128,7 @@ type Path struct {
 	funcs     map[string]bool
 	decided   map[*smt.Term]bool
 	funcSet   map[*fnInfo]struct{}
+	concd     map[*smt.Term]uint64 // terms already concretised on this path
 }
 
 func (p *Path) eval(t *smt.Term) uint64 {
@@ -265,6 +266,12 @@ func (p *Path) Concretize(t *smt.Term, what string) uint64 {
 	if t.IsConst() {
 		return t.C
 	}
+	if v, ok := p.concd[t]; ok {
+		return v
+	}
+	if p.concd == nil {
+		p.concd = map[*smt.Term]uint64{}
+	}
 	if p.pos < len(p.prefix) {
 		d := p.prefix[p.pos]
 		if d.K != DConc {
@@ -273,6 +280,7 @@ func (p *Path) Concretize(t *smt.Term, what string) uint64 {
 		p.pos++
 		p.trace = append(p.trace, d)
 		p.addPC(p.St.Eq(t, p.St.Const(t.W, d.V)))
+		p.concd[t] = d.V
 		return d.V
 	}
 	p.ensureModel()
@@ -304,6 +312,7 @@ func (p *Path) Concretize(t *smt.Term, what string) uint64 {
 	}
 	p.trace = append(p.trace, Decision{DConc, first})
 	p.addPC(p.St.Eq(t, p.St.Const(t.W, first)))
+	p.concd[t] = first
 	return first
 }
 
@@ -367,7 +376,7 @@ func (p *Path) currentModelCopy() smt.Model {
 		// need a real model of the PC
 		r, m := p.Sol.Check(nil, p.St.Vars(), true)
 		p.queries++
-		if r == smt.Sat {
+		if r == smt.Sat && m != nil {
 			return m
 		}
 		return smt.Model{}
